@@ -58,6 +58,53 @@ def Tens3.transpose01 {α : Type} (t : Tens3 α) (dflt : α) : Tens3 α :=
 def colsOf (t : Tens2 Int) : List (List Int) :=
   (List.range t.d1).map (fun n => (List.range t.d0).map (fun i => t.get 0 i n))
 
+/-! ### reading a token tensor in the layout of the call (used by the statements and the oracle) -/
+
+/-- Batch size / sequence length of a token tensor under `batch_first`. -/
+def batchOf {α : Type} (bf : Bool) (t : Tens2 α) : Nat := if bf then t.d0 else t.d1
+def seqLen {α : Type} (bf : Bool) (t : Tens2 α) : Nat := if bf then t.d1 else t.d0
+
+/-- The `n`-th sequence of the batch, read directly off the tensor: `t[n, :]` under
+`batch_first`, `t[:, n]` otherwise. -/
+def seqOf (bf : Bool) (t : Tens2 Int) (n : Nat) : List Int :=
+  if bf then (List.range t.d1).map (fun i => t.get 0 n i)
+  else (List.range t.d0).map (fun i => t.get 0 i n)
+
+/-- The unpadded target list of sequence `n` at prefix length `k` (per-column model of
+`Model/OptCompletion.lean` on the `n`-th reference and hypothesis). -/
+def targetList (cfg : Cfg) (bf : Bool) (ref hyp : Tens2 Int) (n k : Nat) : List Int :=
+  (colSelected cfg (seqOf bf ref n) (seqOf bf hyp n)).getD k []
+
+/-- **What the property asks of (sequence `n`, prefix length `k`)**: `t` is to be listed iff `k` is
+the length of a prefix of the cut hypothesis and appending `t` to that prefix does not raise the
+smallest edit distance (true costs, cut reference) a completion can still reach. -/
+def TargetAt (cfg : Cfg) (bf : Bool) (ref hyp : Tens2 Int) (n k : Nat) (t : Int) : Prop :=
+  ValidPrefix cfg.excludeLast (cutLen cfg.eos cfg.includeEos (seqOf bf hyp n)) k ∧
+  IsTarget cfg.costs ((seqOf bf ref n).take (cutLen cfg.eos cfg.includeEos (seqOf bf ref n)))
+    (((seqOf bf hyp n).take (cutLen cfg.eos cfg.includeEos (seqOf bf hyp n))).take k) t
+
+/-- The executable oracle for (sequence `n`, prefix length `k`): candidates are every token of the
+two padded sequences plus one fresh token; no mask, sort or scatter is involved. -/
+def oracleAt (cfg : Cfg) (bf : Bool) (ref hyp : Tens2 Int) (n k : Nat) : List Int :=
+  let r := seqOf bf ref n
+  let h := seqOf bf hyp n
+  let fresh : Int := (r ++ h).foldl (fun m x => max m (x + 1)) 0
+  if ValidPrefix cfg.excludeLast (cutLen cfg.eos cfg.includeEos h) k then
+    oracleTargets cfg.costs (r ++ h ++ [fresh]) (r.take (cutLen cfg.eos cfg.includeEos r))
+      ((h.take (cutLen cfg.eos cfg.includeEos h)).take k)
+  else []
+
+/-- The declarative loss cell of (prefix `k`, sequence `n`): `lossSpec` of the log-softmax vector
+the call's layout puts at that place, over the target list of that place. -/
+def specCell (cfg : Cfg) (bf : Bool) (w : Int → Rat) (lsm : Tens3 Rat) (ref hyp : Tens2 Int)
+    (k n : Nat) : Rat :=
+  lossSpec w (lookup (lsm.vec 0 (if bf then n else k) (if bf then k else n)))
+    (targetList cfg bf ref hyp n k)
+
+/-- Does (prefix `k`, sequence `n`) have a target at all? -/
+def specHas (cfg : Cfg) (bf : Bool) (ref hyp : Tens2 Int) (k n : Nat) : Bool :=
+  !(targetList cfg bf ref hyp n k).isEmpty
+
 /-- `optimal_completion(ref, hyp, …, batch_first)` on whole tensors. -/
 def optimalCompletionT (cfg : Cfg) (bf : Bool) (ref hyp : Tens2 Int) : Except String (Tens3 Int) :=
   -- _string_matching: if batch_first: ref = ref.t(); hyp = hyp.t()
